@@ -28,7 +28,7 @@ RULE = ("case = (start state(s), operation list). Start: lasio.LASFile() with n 
         "mnemonic / both / missing / out of range), update_curve (ix / mnemonic / both; any subset of data, unit, descr, "
         "value), replace_curve_item (ix incl. negative), las[k]=ndarray (existing / new key), las[k]=CurveItem (existing "
         "/ new / mismatching key), set_data (n x w array, w = len..len+2; names None / shorter / equal / with "
-        "duplicates; truncate False/True); mnemonics from {A, B, a, '', DEPT}; every array carries values unique in "
+        "duplicates; truncate False/True); mnemonics from {A, B, a, '', DEPT, 'A:1' (a name that looks like a numbered key; a key held twice addresses the first holder)}; every array carries values unique in "
         "the run, so a displaced curve is visible. A state machine generates histories of <= 25 (quick) steps; all "
         "sequences of <= 3 operations (thorough: <= 4 on two of the start states) over a 28-letter symbolic operation "
         "alphabet are enumerated on 4 start states (and <= 2, thorough <= 3, on 3 pairs). After every step every view (curves list, "
@@ -67,7 +67,7 @@ ASSUMPTIONS = [
 B_TRUNCATE = "IndexError@las.py:set_data|set_data(truncate)"
 B_NEGREPLACE = "order-differs|replace_curve_item(ix<0)"
 
-NAMES = ["A", "B", "a", "", "DEPT"]
+NAMES = ["A", "B", "a", "", "DEPT", "A:1"]
 UNITS = ["", "M", "FT"]
 DESCRS = ["", "d1", "two words"]
 VALUES = ["", "v1", 7]
@@ -462,6 +462,12 @@ def diff_views(las, M, n):
         if it is not cur[i]:
             return "curves-index", "las.curves[%d] is not the item at that position (got %r)" % (i, it)
     for i, kk in enumerate(sess):
+        # a curve NAMED like the numbered key of a group ("A:1" beside two "A") shares its key with a member of it: a
+        # lookup by key in a list finds the first such entry, which is also the one every edit by mnemonic addresses
+        if M.names.ci:
+            i = [x.upper() for x in sess].index(kk.upper())
+        else:
+            i = sess.index(kk)
         got = aslist(get("getitem-key", las.__getitem__, kk))
         if got != exp_data[i]:
             return "getitem-key", "las[%r] = %r, model (position %d) %r" % (kk, got, i, exp_data[i])
